@@ -98,12 +98,12 @@ func runPotrf(ck *checker, what string, uplo blas.Uplo, a M, lda int, blocked bo
 }
 
 func genChol(g *vlib.G) {
-	N := vlib.Pick(g, 10, 12)
-	nbs := vlib.Pick(g, []int{2, 3, 4}, []int{1, 2, 3, 4})
+	N := vlib.Pick(g, 12, 14)
+	nbs := vlib.Pick(g, []int{1, 2, 3, 4}, []int{1, 2, 3, 4, 5})
 	fams := symFams(N, true)
 	for n := 0; n <= N; n++ {
 		for _, f := range fams {
-			if f.notPD != nil && !f.pd && len(f.name) > 7 && f.name[:7] == "negdiag" && !f.notPD(n) {
+			if k, ok := posFam(f.name); ok && k >= n {
 				continue
 			}
 			for _, uplo := range uplos {
@@ -165,8 +165,8 @@ func genChol(g *vlib.G) {
 
 // genCholSolve: Dpotrs, Dpotri, Dpocon on the factor computed by Dpotrf.
 func genCholSolve(g *vlib.G) {
-	N := vlib.Pick(g, 10, 12)
-	nbs := vlib.Pick(g, []int{2, 3, 4}, []int{1, 2, 3, 4})
+	N := vlib.Pick(g, 12, 14)
+	nbs := vlib.Pick(g, []int{1, 2, 3, 4}, []int{1, 2, 3, 4, 5})
 	fams := pickSFams(symFams(N, false), "spd", "spdgraded", "id", "tri21", "zero")
 	for n := 0; n <= N; n++ {
 		for _, f := range fams {
